@@ -40,6 +40,8 @@ pub enum ModelParseError {
     UseGvError,
     #[error("The header is inconsistent with the data section")]
     InvalidHeader,
+    #[error("A decision tree refers to an unknown node or question")]
+    MalformedTree,
 
     #[error("Failed to parse question: {0}")]
     QuestionParseError(#[from] jlabel_question::ParseError),
